@@ -84,3 +84,12 @@ def slot_elem(sub: Sub) -> Optional[T.Term]:
         if l.kind == "for" and l.iter == T.mk_call("timings_gen.items", []):
             return ("elem", l.iter, lid)
     return None
+
+
+def skip_condition(pred: T.Term) -> T.Term:
+    """The 'before the first partition' condition of Graph.run_supervisor's lax.cond, whichever way round the predicate
+    and the two branches are written: `cond(step == 0, skip, run)` and `cond(step != 0, run, skip)` give the same atom.
+    (The evaluator has already attached each branch to its side of the predicate; rules only need the positive atom.)"""
+    while pred[0] == "not":
+        pred = pred[1]
+    return pred
